@@ -46,7 +46,7 @@ theorem mt_complete {ray : Ray ℝ} {v0 v1 v2 : V3 ℝ} {t u v : ℝ}
   have eu : 1 / a * su = u := by rw [key.1]; field_simp
   have ev : 1 / a * sv = v := by rw [key.2.1]; field_simp
   have et : 1 / a * st = t := by rw [key.2.2]; field_simp
-  unfold intersectTriangle
+  rw [intersectTriangle_eq]
   simp only []
   rw [← ha, ← hsu, ← hsv, ← hst]
   generalize (tiny100 : ℝ) = tiny at *
